@@ -110,6 +110,12 @@ class World:
     def listed(self, pid=None):
         return self.state != "gone"
 
+    def status_code(self):
+        """Name of the native status constant of a listed process: 'code:<NAME>' states name it directly."""
+        if self.state.startswith("code:"):
+            return self.state[5:]
+        return "SZOMB" if self.state == "zombie" else "SSTOP"
+
 
 class TimeoutExpired(Exception):
     pass
@@ -193,10 +199,8 @@ class Layer:
         for fn, n, st in RECORDS[self.plat]:
             if fn == fname:
                 vals = list(w.records.get(fname) or [BASE[fname] + i for i in range(n)])
-                if st is not None and fname not in w.records:
-                    vals[st] = self.const("SZOMB") if w.state == "zombie" else self.const("SSTOP")
-                if st is not None and fname in w.records and w.state == "zombie":
-                    vals[st] = self.const("SZOMB")
+                if st is not None and (fname not in w.records or w.state == "zombie" or w.state.startswith("code:")):
+                    vals[st] = self.const(w.status_code())
                 return tuple(vals)
         raise KeyError(fname)
 
@@ -307,6 +311,8 @@ class Layer:
                 return True
 
             def exists(self, p):
+                if L.plat == "aix" and isinstance(p, str) and p.endswith("/psinfo"):
+                    return L.world.listed()          # _psaix.pid_exists
                 return True
 
         class OsShim:
@@ -319,7 +325,17 @@ class Layer:
                 return L.native("os.readlink", lambda *x: "/target", (p,), {})
 
             def listdir(self, p=".", *a):
+                if p in ("/proc", b"/proc"):             # pids() of _pssunos / _psaix
+                    ls = ["1"] + ([str(L.world.pid)] if L.world.listed() else []) + ["self", "net"]
+                    return [x.encode() for x in ls] if isinstance(p, bytes) else ls
                 return L.native("os.listdir", lambda *x: ["1", "2"], (p,), {})
+
+            def kill(self, pid, sig):                    # only reached from the private copy of _psposix
+                if pid == L.world.pid and not L.world.listed():
+                    raise ProcessLookupError(_errno.ESRCH, "No such process")
+                if pid != L.world.pid and pid != 1:
+                    raise ProcessLookupError(_errno.ESRCH, "No such process")
+                return None
 
             def stat(self, p, *a, **k):
                 def real(path):
@@ -329,22 +345,20 @@ class Layer:
                 return L.native("os.stat", real, (p,), {})
         return OsShim()
 
-    def _posix_shim(self):
-        L = self
-
+    def _load_psposix(self, base):
+        """A private copy of the _psposix.py under test: its pid_exists() runs for real over os.kill of the
+        world model (pid 0 -> True unconditionally is a fact of that code); terminal map = identity on numbers."""
         class TtyMap:
             def __getitem__(self, k):
                 if k == NOTTY:
                     raise KeyError(k)
                 return "/dev/tty%d" % k
-
-        class PsPosix:
-            def get_terminal_map(self):
-                return TtyMap()
-
-            def pid_exists(self, pid):
-                return L.world.listed()
-        return PsPosix()
+        spec = importlib.util.spec_from_file_location("psutil._c20_psposix_%s" % self.plat, _os.path.join(base, "_psposix.py"))
+        m = importlib.util.module_from_spec(spec)
+        spec.loader.exec_module(m)
+        m.os = self._os_shim()
+        m.get_terminal_map = lambda: TtyMap()
+        return m
 
     # ------------------------------------------------------------ loading
     def _load(self, impl_dir):
@@ -353,7 +367,7 @@ class Layer:
         base = _os.path.join(impl_dir, "psutil") if impl_dir else _os.path.dirname(psutil.__file__)
         path = _os.path.join(base, FILES[self.plat])
         saved_flags = {k: getattr(_common, k) for k in ALLFLAGS}
-        names = [self.cext.__name__, "psutil._psutil_posix"]
+        names = [self.cext.__name__, "psutil._psutil_posix"] + ([] if self.plat == "windows" else ["psutil._psposix"])
         saved_mods = {n: sys.modules.get(n) for n in names}
         saved_attr = {n.split(".")[1]: getattr(psutil, n.split(".")[1], None) for n in names}
         try:
@@ -361,6 +375,8 @@ class Layer:
                 setattr(_common, k, k in FLAGS[self.plat])
             sys.modules[self.cext.__name__] = self.cext
             sys.modules["psutil._psutil_posix"] = self.cext_posix
+            if self.plat != "windows":
+                sys.modules["psutil._psposix"] = self._load_psposix(base)
             for n in names:
                 setattr(psutil, n.split(".")[1], sys.modules[n])
             spec = importlib.util.spec_from_file_location("psutil._c20_%s" % self.plat, path)
@@ -394,12 +410,9 @@ class Layer:
         if hasattr(mod, "is_zombie"):
             mod.is_zombie = suspended(mod.is_zombie)
         if self.plat != "windows":
-            mod.pid_exists = lambda pid: L.world.listed()
-            mod._psposix = self._posix_shim()
-            if self.plat in ("sunos", "aix"):
-                mod.pids = lambda: [1] + ([L.world.pid] if L.world.listed() else [])
-            else:
-                mod.pids = suspended(mod.pids)
+            # the module's own pid_exists()/pids() run (over the world model), answered truthfully
+            mod.pid_exists = suspended(mod.pid_exists)
+            mod.pids = suspended(mod.pids)
             mod.os = self._os_shim()
         if hasattr(mod, "isfile_strict"):
             mod.isfile_strict = lambda p: True
